@@ -185,3 +185,83 @@ Definition check_C08 (c : case) : Z :=
       verdict (obs_eqb (obs_tm (Ok (time_of_dt (mkDT d n o)))) (c_out c)) (tm_is (c_out c) n o)
   | _, _ => V_MALFORMED
   end.
+
+(* ---------------------------------------------------------------- C02 *)
+From Astro Require Import DateProofs WeekProofs.
+Definition local_day (d n o : Z) : Z := (d * NANOS_PER_DAY + n + o * NANOS_PER_SEC) / NANOS_PER_DAY.
+
+Definition info_model (d : Z) : obs :=
+  match days_to_doy d with
+  | Ok doy => let '(y, m, _) := days_to_date d in
+      OOk [days_to_wday d false; doy; days_to_wyear d; fmt_quarter d; fmt_wday_e d; fmt_wday_e7 d; doy; m; y] []
+  | _ => OPanic end.
+(* specification: weekday from the Thursday anchor, day of year from 1 January of the reported year,
+   ISO week by the Thursday rule, quarter from the month *)
+Definition info_spec (d : Z) (out : obs) : bool :=
+  match out with
+  | OOk [wd; doy; w; q; e; e7; dd; m; y] [] =>
+      let j := rd (y, 1, 1) in
+      (wd =? (4 + (d - 719162)) mod 7) && negb (y =? 0) && (j <=? d) && (d <? j + ylen y) && (doy =? 1 + d - j) && (dd =? doy)
+      && (w =? iso_week_exec d) && (q =? (m - 1) / 3 + 1) && (e =? wd + 1) && (e7 =? (wd + 6) mod 7 + 1)
+  | _ => false end.
+
+Definition check_C02 (c : case) : Z :=
+  match c_op c, c_ints c with
+  | Op_date_info, [d] => verdict (obs_eqb (info_model d) (c_out c)) (info_spec d (c_out c))
+  | Op_dt_info, [d; n; o] =>
+      let l := local_day d n o in verdict (obs_eqb (info_model l) (c_out c)) (info_spec l (c_out c))
+  | Op_date_set, [3; d; n] =>
+      let mo := obs_z (set_day_of_year d n) in
+      let '(y, _, _) := days_to_date d in
+      let t := rd (y, 1, 1) + n - 1 in
+      let spec := if (1 <=? n) && (n <=? ylen y) && in_i32b t
+                  then obs_eqb (OOk [t] []) (c_out c) else is_oor (c_out c) in
+      verdict (obs_same_class mo (c_out c)) spec
+  | _, _ => V_MALFORMED
+  end.
+
+(* ---------------------------------------------------------------- C05 *)
+From Astro Require Import MonthProofs.
+Definition addm_model (kind d k : Z) : res Z :=
+  match kind with 0 => date_add_months d k | 1 => date_sub_months d k | 2 => date_add_years d k | _ => date_sub_years d k end.
+Definition addm_spec_date (kind d k : Z) : date :=
+  let x := days_to_date d in
+  match kind with 0 => add_months_spec x k | 1 => add_months_spec x (- k) | 2 => add_years_spec x k | _ => add_years_spec x (- k) end.
+
+Definition check_C05 (c : case) : Z :=
+  match c_op c, c_ints c with
+  | Op_date_addm, [kind; d; k] =>
+      let t := addm_spec_date kind d k in
+      let so := if in_rangeb t then OOk [rd t] [] else OPanic in
+      verdict (obs_eqb (obs_z (addm_model kind d k)) (c_out c)) (obs_eqb so (c_out c))
+  | Op_dt_addm, [kind; d; n; o; k] =>
+      let t := addm_spec_date kind d k in
+      let so := if in_rangeb t then OOk [rd t; n; o] [] else OPanic in
+      let mo := match addm_model kind d k with Ok d' => OOk [d'; n; o] [] | _ => OPanic end in
+      verdict (obs_eqb mo (c_out c)) (obs_eqb so (c_out c))
+  | _, _ => V_MALFORMED
+  end.
+
+(* ---------------------------------------------------------------- C07 *)
+Definition dn_leb (a b : Z * Z) : bool := (fst a <? fst b) || ((fst a =? fst b) && (snd a <=? snd b)).
+Definition dn_ltb (a b : Z * Z) : bool := (fst a <? fst b) || ((fst a =? fst b) && (snd a <? snd b)).
+(* characterisation where it applies (a >= b, b's day <= 28); antisymmetry and years = months/12 always *)
+Definition ms_spec (d1 n1 d2 n2 m y m' y' : Z) : bool :=
+  let B := days_to_date d2 in let A := days_to_date d1 in
+  (m' =? - m) && (y =? Z.quot m 12) && (y' =? Z.quot m' 12)
+  && (if dn_leb (d2, n2) (d1, n1) && (snd B <=? 28)
+      then (0 <=? m) && dn_leb (rd (add_months_spec B m), n2) (d1, n1) && dn_ltb (d1, n1) (rd (add_months_spec B (m + 1)), n2)
+      else true)
+  && (if dn_leb (d1, n1) (d2, n2) && (snd A <=? 28)
+      then (0 <=? m') && dn_leb (rd (add_months_spec A m'), n1) (d2, n2) && dn_ltb (d2, n2) (rd (add_months_spec A (m' + 1)), n1)
+      else true).
+Definition check_C07 (c : case) : Z :=
+  match c_op c, c_ints c, c_out c with
+  | Op_date_ms, [d1; d2], OOk [m; y; m'; y'] [] =>
+      let mo := OOk [months_between d1 0 d2 0; years_between d1 0 d2 0; months_between d2 0 d1 0; years_between d2 0 d1 0] [] in
+      verdict (obs_eqb mo (c_out c)) (ms_spec d1 0 d2 0 m y m' y')
+  | Op_dt_ms, [d1; n1; o1; d2; n2; o2], OOk [m; y; m'; y'] [] =>
+      let mo := OOk [months_between d1 n1 d2 n2; years_between d1 n1 d2 n2; months_between d2 n2 d1 n1; years_between d2 n2 d1 n1] [] in
+      verdict (obs_eqb mo (c_out c)) (ms_spec d1 n1 d2 n2 m y m' y')
+  | _, _, _ => V_MALFORMED
+  end.
